@@ -290,6 +290,12 @@ func (c *Client) disconnected() bool {
 }
 
 func (c *Client) closeAndDelSession() {
+	if c.broker.superseded(c) {
+		// a newer connection took over the client id: the session entry, the stored record and
+		// the subscriptions registered under this id belong to that connection now
+		c.close()
+		return
+	}
 	c.broker.sessMgr.delLocal(c.info.cid)
 	if c.session.cleanSession() {
 		c.broker.sessMgr.delDB(c.info.cid)
